@@ -456,8 +456,14 @@ func (env *Env) qualified(pkgName, name string) (Val, bool) {
 						return Val{S: env.g.constVal(c.Type(), c.Val()), G: GType{T: c.Type()}}, true
 					}
 					if v, ok := o.(*types.Var); ok && env.ex != nil {
+						var gl *ssa.Global
 						if sp := env.g.P.SSAPkgs[tp.Path()]; sp != nil {
-							if gl, ok := sp.Members[name].(*ssa.Global); ok {
+							gl, _ = sp.Members[name].(*ssa.Global)
+						} else if sp := env.g.P.Prog.ImportedPackage(tp.Path()); sp != nil {
+							gl, _ = sp.Members[name].(*ssa.Global) // variable of a dependency (e.g. gocb.ErrTimeout)
+						}
+						{
+							if gl != nil {
 								ref := env.ex.globalRef(gl)
 								if _, isSt := v.Type().Underlying().(*types.Struct); isSt {
 									return Val{S: ref, G: GType{T: v.Type(), Loc: true}}, true
